@@ -283,7 +283,17 @@ def make_bases(ctx):
                         'spike_templates': list(a), 'whitening': wh, 'features': 'absent',
                         'tfeatures': 'absent', 'raw': False, 'fill': ctx.seed, 'nsw': 4,
                         'template_dtype': 'float64' if sum(a) % 3 == 0 else 'float32'}
-                _BASES.append({'name': '%s/%s/%s' % (''.join(map(str, a)), geo, wh), 'spec': spec,
+                var = ''
+                if geo == 'line' and sum(a) % 2 == 1:
+                    # templates that are exactly flat on some channels (a flat channel is still one of
+                    # the template's channels: the threshold is "reaches", and 0 reaches 0)
+                    spec['profile'] = [[3, 2, 0, 0], [0, 0, 2, 3], [1, 0, 3, 4]]
+                    var = '/flat-channels'
+                if geo == 'col14' and sum(a) % 2 == 0:
+                    spec['geometry'] = 'col14p_mm'     # coordinates in mm (sites less than one unit
+                    # apart), numbered in a scattered order (neighbours are not adjacent indices)
+                    var = '/mm'
+                _BASES.append({'name': '%s/%s/%s%s' % (''.join(map(str, a)), geo, wh, var), 'spec': spec,
                                'st': list(a)})
 
 
